@@ -222,7 +222,59 @@ def pd_alias(prog: Program) -> RuleResult:
             f"the live container is cleared at line {cl.lineno} and the assigned value is read afterwards at line {bad.lineno if bad else '?'}: "
             f"when the value is that container (x.f = x.f, x.f += ..., x.f |= ...) the data is erased",
         )
+    # what is read after the clear in place of the value - the snapshot - must be a container of its own: a helper that hands a list back
+    # as it is (`if isinstance(value, list): return value`) makes the snapshot the live container again (a MonitoredList is a list)
+    for cl in clears:
+        before = [n for n in cfg.nodes if n.kind == "stmt" and isinstance(n.stmt, ast.Assign) and cfg.dominates(n.id, cl.id) and n.id != cl.id
+                  and any(isinstance(x, ast.Name) and x.id == vparam for x in ast.walk(n.stmt.value)) and len(n.stmt.targets) == 1 and isinstance(n.stmt.targets[0], ast.Name)]
+        after = cfg.reachable(cl.id) - {cl.id}
+        for b in before:
+            name = b.stmt.targets[0].id
+            used = any(isinstance(x, ast.Name) and x.id == name and isinstance(x.ctx, ast.Load) for i in after if cfg.nodes[i].stmt is not None
+                       for part in cfg._own_parts(cfg.nodes[i]) for x in ast.walk(part))
+            if not used:
+                continue
+            why = _may_alias(prog, f, b.stmt.value, {vparam})
+            r.check(why is None, f"PropertyDescriptor.__set__#snapshot-is-a-fresh-container:{name}", site(f, b.stmt), src(b.stmt)[:100],
+                    "the snapshot read after the clear is a newly built container on every path",
+                    f"{name} = {src(b.stmt.value)[:60]} can be the assigned value itself ({why}): when the value is the live container (x.f = x.f, x.f += [...], x.f *= 2) "
+                    "the clear empties the snapshot too - the field ends up empty and the new elements are never recorded")
     return r
+
+
+_FRESH_CALLS = ("list", "tuple", "set", "frozenset", "sorted", "dict", "copy", "deepcopy")
+
+
+def _may_alias(prog: Program, f: FuncInfo, e: ast.expr, params: Set[str], depth: int = 0) -> Optional[str]:
+    """why the value of `e` may be one of `params` itself (None: it is a newly built container whatever the parameter is)"""
+    if isinstance(e, (ast.List, ast.Tuple, ast.Set, ast.Dict, ast.ListComp, ast.SetComp, ast.DictComp, ast.Constant)):
+        return None
+    if isinstance(e, ast.Name):
+        return f"it is {e.id}" if e.id in params else None
+    if isinstance(e, ast.IfExp):
+        return _may_alias(prog, f, e.body, params, depth) or _may_alias(prog, f, e.orelse, params, depth)
+    if isinstance(e, ast.BoolOp):
+        for v in e.values:
+            w = _may_alias(prog, f, v, params, depth)
+            if w:
+                return w
+        return None
+    if isinstance(e, ast.Call):
+        if isinstance(e.func, ast.Name) and e.func.id in _FRESH_CALLS:
+            return None
+        q = f.module.resolve(e.func) if isinstance(e.func, (ast.Name, ast.Attribute)) else None
+        g = prog.functions.get(q) if q else None
+        if g is None or depth > 2:
+            return f"{src(e.func)}() is not known to build a new container"
+        passed = {p for p, a in zip(g.params, e.args) if any(isinstance(x, ast.Name) and x.id in params for x in ast.walk(a))}
+        # locals of the helper that stand for the parameter
+        for x in walk_local(g.node):
+            if isinstance(x, ast.Return) and x.value is not None:
+                w = _may_alias(prog, g, x.value, passed, depth + 1)
+                if w:
+                    return f"{g.name}() returns its argument on one path: line {x.lineno}"
+        return None
+    return f"{src(e)[:40]} is not a construction"
 
 
 def _populating_loops(prog: Program, pd, f: FuncInfo):
